@@ -10,6 +10,21 @@ COMMON_NOTE = ("Trusted: Lean 4.33 kernel; axioms propext/Classical.choice/Quot.
                "correspondence run, which is sampling (bounded-exhaustive + random), not proof. ")
 
 CHECKS = {
+ "C01": dict(
+   text="Theorems for ALL file snapshots, timestamp assignments (ties included), input/output lists and spec flags: should_run is false iff spec unchanged ∧ ≥1 output ∧ every output exists ∧ no input strictly newer than any output (shouldRun_false_iff, via max/min lemmas), true otherwise, total when inputs exist; the decision depends only on the SET of declared paths, hence not on container shape (shouldRun_set_irrelevant/_shape_irrelevant over the inductive Shape type); with no live/failed/cancelled job and complete dependencies the status is completed iff not stale (status_file_based). Tied to the code by the exhaustive single-target enumeration + random DAGs through the real should_run/schedule/FileSpecHashes and the make-semantics predicate evaluated on every observed status map.",
+   note="File system is an in-memory snapshot object with CachedFilesystem's interface; one-stat-per-path consistency of the real CachedFilesystem is only exercised by CLI correspondences. sha1 modelled as equality of spec text.",
+   technique="Lean 4 proof (list induction, omega) + bounded-exhaustive and random differential correspondence with predicate oracle",
+   design="§6-C01"),
+ "C03": dict(
+   text="Theorems for ALL target lists with unique names: on a successful build, A ∈ deps(B) iff some normalised input of B is a normalised output of A (deps_iff), provides maps every output to its single producer, dependents is the inverse relation, endpoints are exactly the targets nobody depends on; with an absolute working directory the normalised path is independent of the process cwd. The listed spellings are kernel-checked examples. Tied to the code by Graph.from_targets vs model on spelling-mutated projects (all container types incl. non-dict Mappings and PathLike) and by the Lean posixpath model vs os.path on generated strings.",
+   note="General 'normPath p = normPath q iff same file' is by definition of lexical resolution in the model; symlinks/case-insensitive file systems are outside gwf's own logic. `gwf info` output is covered at CLI level (C05 correspondence).",
+   technique="Lean 4 proof (closed forms of the construction folds) + differential correspondence with predicate oracle + path-model differential",
+   design="§6-C03"),
+ "C04": dict(
+   text="Theorems for ALL target lists with unique names, any size: buildGraph succeeds iff no file has two producers ∧ every unproduced input exists ∧ the shared-path relation is acyclic (build_ok_iff), each error constructor implies its defect is present (error_kind_applies), self-loops are rejected, the three-colour DFS is sound and complete with exactly the fuel the model uses (pigeonhole on the duplicate-free recursion stack), and success yields a rank bounded by the number of targets so the scheduling theorems apply at any depth (graph_rank). Tied to the code by planted-defect differential runs with an independent Kahn-elimination predicate and by running the real code on chains of thousands of targets.",
+   note="'Terminates without crashing at any size' concerns CPython's stack: proved for the model (total functions), validated for the code on chains of 3 000/20 000 targets in both definition orders. Inertness of commands on invalid workflows is checked at CLI level (C05/C15/C16 correspondences).",
+   technique="Lean 4 proof (DFS invariants: post-order soundness, rank completeness, fuel adequacy) + differential correspondence with independent predicate",
+   design="§6-C04"),
  "C02": dict(
    text="Theorems over ALL acyclic workflows, backend-state vectors, stale flags and endpoint selections (no size bound): the memoised DFS of the model computes the unique declarative status map on exactly the dependency cone (schedule_refines), submits a target iff cone ∧ (failed ∨ cancelled ∨ (not in flight ∧ (stale ∨ some dependency not completed))), never resubmits in-flight targets, each once, dependencies first, with exactly the not-completed direct dependencies as prerequisites. Tied to the code by SUBMITTED_STATES regenerated from source and by running the real schedule() against the model plus the property predicate on every explored case.",
    note="Model covers scheduling._schedule/_cached_schedule/schedule, should_run, Graph.from_targets, _flatten/_norm_path. status_func assumed constant within an invocation. fnmatch selection not modelled here (selection enters as the endpoint list).",
